@@ -572,6 +572,50 @@ def _counted_fmt(node: ast.AST, what: str) -> tuple[str, str]:
     raise TranslateError(f'choreo.py: {what}: counted struct format `{ast.unparse(node)}` not recognised')
 
 
+def _body_as_expr(stmts: list[ast.stmt], boolean: bool = False) -> ast.AST | None:
+    """A function body made of returns, `if` with early returns and the `for x in xs: if P: return True` loop, as ONE expression:
+    `if c: return A` + rest == `A if c else <rest>`; in a boolean context (only the truth value of the result is used)
+    `if c: return True` + rest == `c or <rest>` and the loop + rest == `any(P for x in xs) or <rest>`.  None: not of that shape."""
+    stmts = [b for b in stmts if not (isinstance(b, ast.Expr) and isinstance(b.value, ast.Constant)) and not isinstance(b, ast.Pass)]
+    if not stmts:
+        return None
+    st, rest = stmts[0], stmts[1:]
+
+    def const(e: ast.AST | None, val: bool) -> bool:
+        return isinstance(e, ast.Constant) and e.value is val
+    if isinstance(st, ast.Return):
+        return st.value
+    if isinstance(st, ast.If):
+        a = _body_as_expr(st.body + rest, boolean)
+        b = _body_as_expr(st.orelse + rest, boolean)
+        if a is None or b is None:
+            return None
+        if boolean and const(a, True):
+            return ast.BoolOp(op=ast.Or(), values=[st.test, b])
+        if boolean and const(b, False):
+            return ast.BoolOp(op=ast.And(), values=[st.test, a])
+        return ast.IfExp(test=st.test, body=a, orelse=b)
+    if boolean and isinstance(st, ast.For) and not st.orelse and isinstance(st.target, ast.Name) and len(st.body) == 1 \
+            and isinstance(st.body[0], ast.If) and not st.body[0].orelse and len(st.body[0].body) == 1 \
+            and isinstance(st.body[0].body[0], ast.Return) and const(st.body[0].body[0].value, True):
+        r = _body_as_expr(rest, boolean)
+        if r is None:
+            return None
+        found = ast.Call(func=ast.Name(id='any', ctx=ast.Load()), keywords=[], args=[ast.GeneratorExp(
+            elt=st.body[0].test, generators=[ast.comprehension(target=st.target, iter=st.iter, ifs=[], is_async=0)])])
+        return found if const(r, False) else ast.BoolOp(op=ast.Or(), values=[found, r])
+    return None
+
+
+def _or_terms(e: ast.AST) -> list[ast.AST]:
+    if isinstance(e, ast.BoolOp) and isinstance(e.op, ast.Or):
+        return [t for v in e.values for t in _or_terms(v)]
+    return [e]
+
+
+_MODULE_FUNCS: dict[str, ast.FunctionDef] = {}     # module-level functions of choreo.py (set by translate_scenes_image)
+
+
 def _lambda_attr(node: ast.AST, what: str) -> str:
     """lambda e: e.ATTR -> ATTR"""
     if isinstance(node, ast.Lambda) and len(node.args.args) == 1 and not node.args.defaults and isinstance(node.body, ast.Attribute) \
@@ -580,6 +624,13 @@ def _lambda_attr(node: ast.AST, what: str) -> str:
     if isinstance(node, ast.Call) and ast.unparse(node.func) in ('operator.attrgetter', 'attrgetter') and len(node.args) == 1 \
             and isinstance(node.args[0], ast.Constant) and isinstance(node.args[0].value, str) and '.' not in node.args[0].value:
         return node.args[0].value
+    if isinstance(node, ast.Name) and node.id in _MODULE_FUNCS:
+        # key=helper with `def helper(e): return e.ATTR` at module level
+        fn = _MODULE_FUNCS[node.id]
+        body = _body_as_expr(fn.body)
+        if len(fn.args.args) == 1 and not fn.args.defaults and not fn.args.vararg and not fn.args.kwarg and not fn.args.kwonlyargs \
+                and not fn.decorator_list and body is not None:
+            return _lambda_attr(ast.Lambda(args=fn.args, body=body), what)
     raise TranslateError(f'choreo.py: {what}: sort key `{ast.unparse(node)}` is not an attribute of the entry')
 
 
@@ -693,6 +744,8 @@ def translate_scenes_image() -> tuple[str, dict]:
     tree = ast.parse(src_text('choreo.py'))
     mstructs = _module_structs(tree)
     funcs = {n.name: n for n in tree.body if isinstance(n, ast.FunctionDef)}
+    _MODULE_FUNCS.clear()
+    _MODULE_FUNCS.update(funcs)
     classes = {n.name: n for n in tree.body if isinstance(n, ast.ClassDef)}
     for need in ('save_scenes_image_sync', 'parse_scenes_image'):
         if need not in funcs:
@@ -1240,6 +1293,9 @@ class _TextCensus:
         self.funcs: dict[str, ast.FunctionDef] = {}
         self.sites: list[tuple[int, str, str, str]] = []   # (line, class, type, source)
         self.cond_lines: list[list] = []                   # written templates holding a quoted-on-demand field
+        self.alias: dict[str, str] = {}                    # local name -> the attribute read it was last assigned (x = obj.attr)
+        self.lines: list[tuple[str, list]] = []            # (function, written template) in walking order: ('lit', text) / ('fld', source)
+        self.cur_fn = ''
         for n in self.tree.body:
             if isinstance(n, ast.Assign) and len(n.targets) == 1 and isinstance(n.targets[0], ast.Name):
                 self._maybe_table(n.targets[0].id, n.value)
@@ -1362,8 +1418,9 @@ class _TextCensus:
                     flat[-1] = ('lit', flat[-1][1] + p[1])
                 elif not (p[0] == 'lit' and p[1] == ''):
                     flat.append(p)
+            self.lines.append((self.cur_fn, [('lit', p[1]) if p[0] == 'lit' else ('fld', self.alias.get(p[3], p[3])) for p in flat]))
             if cond and any(p[0] == 'fld' and p[3] in cond for p in flat):
-                self.cond_lines.append([('lit', p[1]) if p[0] == 'lit' else ('fld', p[3] in cond) for p in flat])
+                self.cond_lines.append([('lit', p[1]) if p[0] == 'lit' else ('fld', p[3] in cond, self.alias.get(p[3], p[3])) for p in flat])
             for i, p in enumerate(flat):
                 if p[0] != 'fld':
                     continue
@@ -1400,6 +1457,7 @@ class _TextCensus:
                 env[a.arg] = 'TyWord'
         tpl: dict[str, list] = {}
         cond: dict[str, str] = {}
+        self.cur_fn = key
         self._block(fn.body, env, tpl, cond, key)
         return fn
 
@@ -1459,9 +1517,19 @@ class _TextCensus:
                             env[x.id] = ty
                 self._block(st.body, env, tpl, cond, key)
                 continue
+            if isinstance(st, ast.Assign) and len(st.targets) == 1 and isinstance(st.targets[0], ast.Tuple) and isinstance(st.value, ast.Tuple) \
+                    and len(st.targets[0].elts) == len(st.value.elts) and all(isinstance(x, ast.Name) for x in st.targets[0].elts) \
+                    and not ({x.id for x in st.targets[0].elts} & {n.id for n in ast.walk(st.value) if isinstance(n, ast.Name)}):
+                # a, b = X, Y  (no target read on the right)  ==  a = X; b = Y
+                self._block([ast.copy_location(ast.Assign(targets=[x], value=y), st) for x, y in zip(st.targets[0].elts, st.value.elts)],
+                            env, tpl, cond, key)
+                continue
             if isinstance(st, ast.Assign) and len(st.targets) == 1 and isinstance(st.targets[0], ast.Name):
                 nm = st.targets[0].id
                 v = self._inline_helper(st.value)
+                self.alias.pop(nm, None)
+                if isinstance(v, ast.Attribute):
+                    self.alias[nm] = ast.unparse(v)
                 cq = self._cond_quoted(v)
                 if cq is not None:
                     # x = f'"{E}"' if _needs_quotes(E) else E      (also through a helper: x = _quote_if_needed(E))
@@ -1507,14 +1575,8 @@ class _TextCensus:
         if not (isinstance(v, ast.Call) and isinstance(v.func, ast.Name) and v.func.id in self.funcs) or depth > 3:
             return v
         fn = self.funcs[v.func.id]
-        body = [b for b in fn.body if not (isinstance(b, ast.Expr) and isinstance(b.value, ast.Constant))]
-        if len(body) == 2 and isinstance(body[0], ast.If) and not body[0].orelse and len(body[0].body) == 1 \
-                and isinstance(body[0].body[0], ast.Return) and isinstance(body[1], ast.Return):
-            # if c: return A / return B   ==   return A if c else B
-            ret: ast.AST = ast.IfExp(test=body[0].test, body=body[0].body[0].value, orelse=body[1].value)
-        elif len(body) == 1 and isinstance(body[0], ast.Return) and body[0].value is not None:
-            ret = body[0].value
-        else:
+        ret = _body_as_expr(fn.body)       # if c: return A / return B   ==   return A if c else B
+        if ret is None:
             return v
         params = [a.arg for a in fn.args.args]
         if fn.args.vararg or fn.args.kwarg or fn.args.kwonlyargs or len(v.args) > len(params):
@@ -1896,17 +1958,19 @@ def _vmt_needs_quotes(vmt_tree: ast.Module) -> tuple[str, dict]:
     if fn is None or len(fn.args.args) != 1:
         raise TranslateError('vmt.py: _needs_quotes(text) not found')
     arg = fn.args.args[0].arg
-    body = [b for b in fn.body if not (isinstance(b, ast.Expr) and isinstance(b.value, ast.Constant))]
-    if len(body) != 1 or not isinstance(body[0], ast.Return) or body[0].value is None:
-        raise TranslateError('vmt.py: _needs_quotes is not a single return')
-    e = body[0].value
+    e = _body_as_expr(fn.body, boolean=True)
+    if e is None:
+        raise TranslateError('vmt.py: _needs_quotes is not a chain of returns / early returns / a search loop')
     tok_tree = ast.parse(src_text('tokenizer.py'))
 
     def chars(x: ast.AST, depth: int = 0) -> str:
         if isinstance(x, ast.Constant) and isinstance(x.value, str):
             return x.value
-        if isinstance(x, ast.Call) and ast.unparse(x.func) in ('frozenset', 'set') and len(x.args) == 1:
+        if isinstance(x, ast.Call) and ast.unparse(x.func) in ('frozenset', 'set', 'tuple', 'list') and len(x.args) == 1 and not x.keywords:
             return chars(x.args[0], depth + 1)
+        if isinstance(x, (ast.Tuple, ast.List, ast.Set)) and x.elts and all(
+                isinstance(c, ast.Constant) and isinstance(c.value, str) and len(c.value) == 1 for c in x.elts):
+            return ''.join(c.value for c in x.elts)      # membership of ONE character: the same test as `in '<those characters>'`
         if isinstance(x, ast.Name) and depth < 3:
             for tree in (vmt_tree, tok_tree):
                 for n in tree.body:
@@ -1917,8 +1981,13 @@ def _vmt_needs_quotes(vmt_tree: ast.Module) -> tuple[str, dict]:
     empty = False
     leading = ''
     disallowed = ''
-    for t in (e.values if isinstance(e, ast.BoolOp) and isinstance(e.op, ast.Or) else [e]):
+    for t in _or_terms(e):
         if isinstance(t, ast.UnaryOp) and isinstance(t.op, ast.Not) and isinstance(t.operand, ast.Name) and t.operand.id == arg:
+            empty = True
+        elif isinstance(t, ast.UnaryOp) and isinstance(t.op, ast.Not) and ast.unparse(t.operand) == f'len({arg})':
+            empty = True
+        elif isinstance(t, ast.Compare) and len(t.ops) == 1 and ast.unparse(t.left) == f'len({arg})' and isinstance(t.comparators[0], ast.Constant) \
+                and ((isinstance(t.ops[0], ast.Eq) and t.comparators[0].value == 0) or (isinstance(t.ops[0], ast.Lt) and t.comparators[0].value == 1)):
             empty = True
         elif isinstance(t, ast.Compare) and len(t.ops) == 1 and isinstance(t.ops[0], ast.Eq) and ast.unparse(t.left) == arg \
                 and isinstance(t.comparators[0], ast.Constant) and t.comparators[0].value == '':
@@ -1962,8 +2031,19 @@ def translate_text_writers() -> tuple[str, dict]:
     vmt.walk('Material.export')
     vmt.walk('_write_block')
     nq_line, nq_side = _vmt_needs_quotes(vmt.tree)
-    line_ok = bool(vmt.cond_lines) and all(cl == [('lit', '\t'), ('fld', True), ('lit', ' '), ('fld', True), ('lit', '\n')] for cl in vmt.cond_lines)
+    line_ok = bool(vmt.cond_lines) and all([x[:2] for x in cl] == [('lit', '\t'), ('fld', True), ('lit', ' '), ('fld', True), ('lit', '\n')]
+                                           for cl in vmt.cond_lines)
+    # which attribute of the parameter object each of the two fields is: `<p>.name` then `<p>.value` of the same <p>
+    order_ok = line_ok and all(re.fullmatch(r'(\w+)\.name', cl[1][2]) and re.fullmatch(r'(\w+)\.value', cl[3][2])
+                               and cl[1][2].split('.')[0] == cl[3][2].split('.')[0] for cl in vmt.cond_lines)
     nq_line += f'\nDefinition vmt_param_line_is_tab_name_space_value_newline : bool := {str(line_ok).lower()}.'
+    nq_line += f'\nDefinition vmt_param_line_writes_the_name_attribute_then_the_value_attribute : bool := {str(bool(order_ok)).lower()}.'
+    # the frame of the file: Material.export writes `<shader>\n\t{\n` first, the parameter lines next, `\t}\n` last
+    exp_lines = [l for fn_, l in vmt.lines if fn_ == 'Material.export']
+    frame_ok = len(exp_lines) >= 3 and exp_lines[0] == [('fld', 'self.shader'), ('lit', '\n\t{\n')] and exp_lines[-1] == [('lit', '\t}\n')] \
+        and [x[0] for x in exp_lines[1]] == ['lit', 'fld', 'lit', 'fld', 'lit'] and line_ok
+    nq_line += f'\nDefinition vmt_file_is_shader_brace_parameter_lines_brace : bool := {str(bool(frame_ok)).lower()}.'
+    nq_side['export_templates'] = [[list(x) for x in l] for l in exp_lines]
     nq_side['param_line_templates'] = [[list(x) for x in cl] for cl in vmt.cond_lines]
     # ---- choreo text
     cho = _TextCensus('choreo.py')
